@@ -119,6 +119,12 @@ def _loop():
     return lp
 
 
+def _in_main_process():
+    import multiprocessing
+
+    return multiprocessing.current_process().name == "MainProcess"
+
+
 class World:
     """A store plus a caching loader and its non-caching twin over it."""
 
@@ -224,8 +230,9 @@ class World:
                     ref.append(self.request(1, ev))
         finally:
             try:
-                # no executor thread may survive the case (the pool forks): the loop is kept, its executor is not
-                if getattr(self.loop, "_default_executor", None) is not None:
+                # no executor thread may survive a case in the main process (it forks worker pools later); a pool
+                # worker never forks, so it keeps its executor threads from one history to the next
+                if getattr(self.loop, "_default_executor", None) is not None and _in_main_process():
                     self.loop.run_until_complete(self.loop.shutdown_default_executor())
                     self.loop._default_executor = None
                     self.loop._executor_shutdown_called = False
